@@ -96,7 +96,7 @@ func (p *plainD) Put(k string, s *dtlcp.SessionState) {
 func (c10) ID() string    { return "C10" }
 func (c10) Level() string { return "exploration" }
 func (c10) Rule() string {
-	return "each case is a history drawn from the seed over one client configuration (one session cache) and 1-3 real servers at distinct addresses (one cache each): connect (handshake + echo), server loses its cache (restart), client or server changes its enabled suites, a scripted client offers a forged or stale session id, a handshake is ruined (transport cut at once / peer gone, or - \"late\" - the server's ChangeCipherSpec and Finished never arrive), servers and client move to another CA (cached sessions no longer verify; and back); with or without client certificates; client cache capacity 64, or 1-2 with a single server; server caches the built-in LRU or an application-supplied map that hands out the object it was given; both stacks. A reference model of the caches predicts for every connection whether it resumes. Oracle: DidResume on both sides equals the prediction and every honest connection succeeds; a resumed connection reports the original peer certificates on both sides (also to the VerifyConnection callbacks) and has fresh randoms and Finished values; new session ids are 32 bytes and unique in the history; after a ruined handshake the next ClientHello to that server carries no session id (wire). In a third of the LRU cases the servers' caches hold one session: the forged-id client's handshake evicts the session the real client still holds, which must then fall back to a full handshake (after a ruined handshake the model takes the cache content as unknown and learns it from the next connection). distinct = distinct histories; non-trivial = at least one resumption and one non-trivial event (restart, reconfiguration, forged id, ruin)"
+	return "each case is a history drawn from the seed over one client configuration (one session cache) and 1-3 real servers at distinct addresses (one cache each): connect (handshake + echo), server loses its cache (restart), client or server changes its enabled suites, a scripted client offers a forged or stale session id, a handshake is ruined (transport cut at once / peer gone, or - \"late\" - the server's ChangeCipherSpec and Finished never arrive), servers and client move to another CA (cached sessions no longer verify; and back); with or without client certificates; client cache capacity 64, or 1-2 with a single server; server caches the built-in LRU or an application-supplied map that hands out the object it was given; both stacks. A reference model of the caches predicts for every connection whether it resumes. Oracle: DidResume on both sides equals the prediction and every honest connection succeeds; a resumed connection reports the original peer certificates on both sides (also to the VerifyConnection callbacks) and has fresh randoms and Finished values; new session ids are 32 bytes and unique in the history; after a ruined handshake the next ClientHello to that server carries no session id (wire). In a third of the LRU cases the servers' caches hold one session: the forged-id client's handshake evicts the session the real client still holds, which must then fall back to a full handshake (after a ruined handshake the model takes the cache content as unknown and learns it from the next connection). In a quarter of the cases the servers' Config.Rand returns at most 3 bytes per Read: a new session id with more than 12 zero bytes counts as not random. distinct = distinct histories; non-trivial = at least one resumption and one non-trivial event (restart, reconfiguration, forged id, ruin)"
 }
 func (c10) Components() (real, stub []string) {
 	return []string{"tlcp/dtlcp client and servers (instrumented): loadSession, checkForResumption, session creation and cleanup, lruSessionCache"},
